@@ -60,7 +60,7 @@ Proof.
   destruct (str_eqb (sw_operand r) groups_operand); [|eexists; reflexivity].
   unfold group_split_wf in Hwf. destruct (sw_cases r) as [|k ks].
   - rewrite Hfix. eexists; reflexivity.
-  - destruct (case_arg1 k); [|discriminate]. destruct (case_arg0 k); [|discriminate]. eexists; reflexivity.
+  - destruct (case_arg1 k); [|discriminate Hwf]. destruct (case_arg0 k); [|discriminate Hwf]. eexists; reflexivity.
 Qed.
 
 (* the row of a group split that has no case yet: type split_by_group, no group named *)
@@ -275,36 +275,36 @@ Lemma initiate_names_result nodes :
     Forall (fun r => split_row_names_result nodes (r_type r) (r_pay r)) rms.
 Proof.
   intros Hfix n sn pe rms Hin H. unfold initiate_row_models in H.
-  destruct (node_kwargs n) as [kw|e] eqn:Ek; cbn [bind] in H; [|discriminate].
+  destruct (node_kwargs n) as [kw|e] eqn:Ek; cbn [bind] in H; [|discriminate H].
   destruct (n_actions n) as [|a rest] eqn:Ea.
-  - destruct kw as [[tp p]|]; [|discriminate].
+  - destruct kw as [[tp p]|]; [|discriminate H].
     pose proof (node_base_pay_uuid n) as Hbu. pose proof (node_base_pay_no_save n) as Hbs.
     set (bp := node_base_pay n) in *. clearbody bp.
     injection H as <-. constructor; [|constructor].
     cbn [r_type r_pay]. intros Hsplit.
     assert (Huuid : assoc_str f_node_uuid (bp ++ p) = Some (PU (n_uuid n))).
-    { clear -Hbu. induction bp as [|[k v] r IH]; [discriminate|]. cbn [assoc_str app] in *.
+    { clear -Hbu. induction bp as [|[k v] r IH]; [discriminate Hbu|]. cbn [assoc_str app] in *.
       destruct (str_eqb k f_node_uuid); [exact Hbu|apply IH, Hbu]. }
     rewrite (assoc_str_app_r f_save_name bp p Hbs).
-    unfold node_kwargs in Ek. destruct (n_kind n) as [d|rk r|rs cats] eqn:Enk; try discriminate.
-    + destruct rk; try discriminate.
-      destruct (router_kwargs r) as [kw'|e'] eqn:Er; cbn [bind] in Ek; [|discriminate].
+    unfold node_kwargs in Ek. destruct (n_kind n) as [d|rk r|rs cats] eqn:Enk; [discriminate Ek| |].
+    + destruct rk; [|discriminate Ek|discriminate Ek|discriminate Ek].
+      destruct (router_kwargs r) as [kw'|e'] eqn:Er; cbn [bind] in Ek; [|discriminate Ek].
       injection Ek as ->. unfold router_kwargs in Er.
       destruct (sw_wait r) as [w|] eqn:Ew; [injection Er as <- <-; discriminate Hsplit|].
       exists n, (sw_result r). split; [exact Hin|]. split; [exact Huuid|].
       split; [unfold split_result; rewrite Enk, Ew; reflexivity|].
       destruct (str_eqb (sw_operand r) groups_operand).
       * destruct (sw_cases r) as [|k ks].
-        -- destruct group_split_without_cases_exports; [|discriminate]. injection Er as <- <-.
+        -- destruct group_split_without_cases_exports; [|discriminate Er]. injection Er as <- <-.
            cbn [app]. rewrite !assoc_str_cons_skip by reflexivity. apply split_save_name_get, Hfix.
-        -- destruct (case_arg1 k); [|discriminate]. destruct (case_arg0 k) as [a0|]; [|discriminate]. injection Er as <- <-.
+        -- destruct (case_arg1 k); [|discriminate Er]. destruct (case_arg0 k) as [a0|]; [|discriminate Er]. injection Er as <- <-.
            cbn [app]. rewrite !assoc_str_cons_skip by reflexivity. apply split_save_name_get, Hfix.
       * injection Er as <- <-.
         cbn [app]. rewrite !assoc_str_cons_skip by reflexivity. apply split_save_name_get, Hfix.
     + injection Ek as <- <-. exists n, rs. split; [exact Hin|]. split; [exact Huuid|].
       split; [unfold split_result; rewrite Enk; reflexivity|].
       apply split_save_name_get, Hfix.
-  - apply action_rows_not_split in H. revert H. apply Forall_impl. intros r Hr Hs. rewrite Hr in Hs. discriminate.
+  - apply action_rows_not_split in H. revert H. apply Forall_impl. intros r Hr Hs. rewrite Hr in Hs. discriminate Hs.
 Qed.
 
 (* The repair of split-result-name-lost, for every flow, numbered or not: each row of the sheet that
@@ -364,7 +364,7 @@ Theorem switch_pairs_one_per_case_repaired :
           \/ rest = (c_dest (sw_default r), {| e_from := last; e_cond := no_cond |}) :: noresp_pairs r last).
 Proof.
   intros Hfix r last prs H. unfold switch_pairs in H. rewrite Hfix in H.
-  destruct (case_pairs ueqb r last (all_categories r) (sw_cases r) []) as [pc|e] eqn:Ec; cbn [bind] in H; [|discriminate].
+  destruct (case_pairs ueqb r last (all_categories r) (sw_cases r) []) as [pc|e] eqn:Ec; cbn [bind] in H; [|discriminate H].
   injection H as <-. exists (fst pc). eexists. split; [reflexivity|]. split; [apply (case_pairs_spec _ _ _ _ _ _ Ec)|].
   destruct (mem_u ueqb (c_uuid (sw_default r)) (snd pc)); [left|right]; reflexivity.
 Qed.
